@@ -7,9 +7,10 @@ LIM3  user-sized loop bounds
 LIM4  big-integer operations are capped"""
 import re, sys
 from collections import defaultdict
-from mir import (peel, op_place, op_local, const_int, describe_origin, natural_loop, rv_operands, rv_places)
+from mir import (stable_origin, peel, op_place, op_local, const_int, describe_origin, natural_loop, rv_operands, rv_places)
 
 GUARDS = {"parse": re.compile(r"ExpressionParser::<.*>::check_recursion_limit$"), "eval": re.compile(r"EvalContext::check_recursion_depth_limit$")}
+DEEPEN = {"parse": re.compile(r"^$"), "eval": re.compile(r"EvalContext::new_deepened$")}
 RESETS = {"parse": re.compile(r"ExpressionParser::<.*>::new$"), "eval": re.compile(r"^expr::eval::EvalContext::new$")}
 
 
@@ -107,6 +108,16 @@ def lim1(run):
                 n += 1
                 run.violation(R, "LIM1|reset-on-cycle|" + r_, prog.fn(r_).loc(),
                               "the %s depth counter that guards the cycle %s is re-created inside the cycle by %s: nesting through it is not bounded by the depth limit (stack overflow instead of a diagnostic)" % (k, cycle_key(comp), r_))
+        # a reset reached through a helper that is not itself on the cycle (one call away) defeats the guard as well, unless
+        # the helper is the deepening constructor (which resets and then sets depth + 1)
+        for k in kinds:
+            for m in sorted(cs):
+                for h in sorted(g.get(m, ())):
+                    if h in cs or h not in resets[k] or DEEPEN[k].search(h):
+                        continue
+                    n += 1
+                    run.violation(R, "LIM1|reset-on-cycle|" + h, prog.fn(h).loc() if prog.fn(h) else "-",
+                                  "the %s depth counter that guards the cycle %s is re-created by %s, which %s calls on the cycle: nesting through it is not bounded by the depth limit (stack overflow instead of a diagnostic)" % (k, cycle_key(comp), h, m))
         resid = sccs_of(cs - all_guards, g)
         if not resid:
             n += 1
@@ -495,10 +506,12 @@ def lim2(run, only_files=None, rule="LIM2"):
             ca, cb = const_int(rv["l"]), const_int(rv["r"])
             root = f.raw.get("root") or f.id
             fname = root
-            ld = describe_origin(f, f.origin_op(rv["l"])) if ca is None else str(ca)
-            rd = describe_origin(f, f.origin_op(rv["r"])) if cb is None else str(cb)
-            ld, rd = _stable(ld), _stable(rd)
+            old_ld = _stable(describe_origin(f, f.origin_op(rv["l"]))) if ca is None else str(ca)
+            old_rd = _stable(describe_origin(f, f.origin_op(rv["r"]))) if cb is None else str(cb)
+            ld = _stable(stable_origin(f, f.origin_op(rv["l"]))) if ca is None else str(ca)
+            rd = _stable(stable_origin(f, f.origin_op(rv["r"]))) if cb is None else str(cb)
             key = "%s|%s|%s|%s|%s" % (rule, fname, op, ld, rd)
+            KEYMAP["%s|%s|%s|%s|%s" % (rule, fname, op, old_ld, old_rd)] = key
             why = None
             if op == "Add":
                 if max(a, b) == WORD and not (ca == 0 or cb == 0):
@@ -524,6 +537,9 @@ def lim2(run, only_files=None, rule="LIM2"):
             out.append((key, f, st["span"], "%s %s" % (root, why), audited.get(key)))
     run.count("lim2_sites_flagged", n)
     return out
+
+
+KEYMAP = {}
 
 
 def _stable(d):
@@ -615,8 +631,10 @@ def _caller_obligations(prog, T, f, op, audited, out, what):
             if ac < WORD:
                 continue
             groot = g.raw.get("root") or g.id
-            ad = _stable(describe_origin(g, g.origin_op(a_))) if op_place(a_) is not None else str(const_int(a_))
-            key = "LIM3|%s|%s<-%s|%s" % (root, f.local_name(i), groot, ad)
+            ad = _stable(stable_origin(g, g.origin_op(a_))) if op_place(a_) is not None else str(const_int(a_))
+            old_ad = _stable(describe_origin(g, g.origin_op(a_))) if op_place(a_) is not None else str(const_int(a_))
+            key = "LIM3|%s|P%d<-%s|%s" % (root, i, groot, ad)
+            KEYMAP["LIM3|%s|%s<-%s|%s" % (root, f.local_name(i), groot, old_ad)] = key
             if _cap_guard(g, b2, a_):
                 out.append((key, g, t["span"], "capped", "%s calls %s behind a test of the argument against BIGINT_MAX_BITS" % (groot, root)))
             elif key in audited:
@@ -654,7 +672,8 @@ def lim3(run):
             if c < U32:
                 continue
             root = f.raw.get("root") or f.id
-            d = _stable(describe_origin(f, f.origin_op(endop)))
+            d = _stable(stable_origin(f, f.origin_op(endop)))
+            KEYMAP["LIM3|%s|range-end|%s" % (f.raw.get("root") or f.id, _stable(describe_origin(f, f.origin_op(endop))))] = "LIM3|%s|range-end|%s" % (f.raw.get("root") or f.id, d)
             if _caller_obligations(prog, T, f, endop, audited, out, "which loops that many times bit by bit"):
                 pass
             else:
@@ -700,7 +719,7 @@ def lim3(run):
                 c = T.op_class(f, o)
                 if c < WORD:
                     continue
-                d = _stable(describe_origin(f, f.origin_op(o))) if op_place(o) is not None else str(const_int(o))
+                d = _stable(stable_origin(f, f.origin_op(o))) if op_place(o) is not None else str(const_int(o))
                 key = "LIM3|store|%s.%s|%s|%s" % (fld[0].rsplit("::", 1)[-1], fld[1], root, d)
                 if _caller_obligations(prog, T, f, o, audited, out, "which makes it the width of a value"):
                     continue
